@@ -606,7 +606,26 @@ func (h *H) thriftUnknownField(pn string, depth int) []byte {
 	w := p.NewWriter(&buf)
 	enc := thrift.NewEncoder(w)
 	id := int16(20000 + h.Intn(10000))
-	switch h.Intn(9) {
+	switch h.Intn(14) {
+	case 9: // collections of bools: in the compact protocol only a bool FIELD lives in its header, elements are bytes
+		w.WriteField(thrift.Field{ID: id, Type: thrift.LIST})
+		l := make([]bool, 1+h.Intn(5))
+		for i := range l {
+			l[i] = h.Bool()
+		}
+		enc.Encode(l)
+	case 10:
+		w.WriteField(thrift.Field{ID: id, Type: thrift.SET})
+		enc.Encode(map[bool]struct{}{h.Bool(): {}})
+	case 11:
+		w.WriteField(thrift.Field{ID: id, Type: thrift.MAP})
+		enc.Encode(map[string]bool{"a": h.Bool(), "bb": true, "c": false})
+	case 12:
+		w.WriteField(thrift.Field{ID: id, Type: thrift.LIST})
+		enc.Encode([][]bool{{true, false}, {}, {h.Bool()}})
+	case 13:
+		w.WriteField(thrift.Field{ID: id, Type: thrift.MAP})
+		enc.Encode(map[bool][]bool{true: {false, true}, false: nil})
 	case 0:
 		w.WriteField(thrift.Field{ID: id, Type: thrift.I64})
 		w.WriteInt64(int64(h.U64()))
